@@ -109,7 +109,7 @@ def build(name):
 def c19(tier):
     t0 = time.time()
     b = build("c19")
-    res = [run_space(b, "bfs", tier), run_space(b, "seq", tier), run_space(b, "wide", tier)]
+    res = [run_space(b, "bfs", tier), run_space(b, "seq", tier), run_space(b, "wide", tier), run_space(b, "two", tier)]
     # the reader is platform independent by its statement: the same spaces on a 32-bit build (GOARCH=386 runs on this
     # kernel), where int / uint are 32 bits wide - quick depth, both tiers
     b32 = build("c19_386")
@@ -121,6 +121,7 @@ def c19(tier):
                   rule="bfs: one case per buffer (length 0..9 x 2 content families, handed over with spare capacity filled with sentinels), explored to closure over (reference position, all fields of the real Reader) with all 27 operations from every state; "
                        "seq: every operation sequence of length 5 (quick) / 6 (thorough) without state merging, rooted at (buffer, first two ops); "
                        "wide: buffers of 255, 256, 257, 65535, 65536, 65537, 65600 octets x every operation sequence of length 3 (thorough 4) over the 5 fixed-width ops, len, count and read/peek with n in {0,1,2,127,128,254..257,32767,32768,65534..65537,L-1,L,L+1} (integer-width boundaries of positions, counts and arguments). The three spaces are repeated (quick depth) with the harness built for GOARCH=386, where int and uint are 32 bits wide. "
+                       "two: TWO readers alive at once over different buffers (every worker has one, a decoder creates one per datagram), the second created before step t = 0..3; every 3-step sequence over (which reader, which of the 27 operations); after each step the reader operated on is checked as everywhere else and the OTHER one must still report the length and count of its own history. "
                        "Non-trivial = buffer explored (bfs) / root whose subtree contains a sequence that consumed octets (seq); distinct by content hash.",
                   assumptions=["BFS states are merged on the reference position together with a by-value rendering of every field of reader.Reader (buffer contents excluded); a field that cannot be rendered by value switches the merge off (exhaustive:false, the unmerged spaces remain)",
                                "whether returned octets are a view of the buffer or a copy is not part of the statement and not checked",
